@@ -32,6 +32,25 @@ func init() {
 
 const c05AttemptBound = uint64(1) << 62
 
+// c05AssignQueues builds the DE state of the assignment harnesses: well-formed pairs; the first `vary`
+// addresses have 0..window queued pairs, the others exactly `window`. With finite_points=1 the paths on
+// which a computed nonce is the point at infinity are assumed away (see vs.AssumeFinitePoints); otherwise
+// they are explored and reported under the "hash-coincidence/" labels (c05HashFault).
+func c05AssignQueues(e *c05Env, nAddr int) *c05State {
+	if vs.Param("finite_points") == 1 {
+		vs.AssumeFinitePoints()
+	}
+	window, vary := vs.Param("window"), vs.Param("vary")
+	lo, hi := make([]int, nAddr), make([]int, nAddr)
+	for a := range hi {
+		hi[a] = window
+		if a >= vary {
+			lo[a] = window
+		}
+	}
+	return c05BuildQueuesOpt(e, nAddr, lo, hi, c05PointDE, false)
+}
+
 // c05Sign is the signing-side pre-state shared by the assignment harnesses.
 type c05Sign struct {
 	nAddr      int
@@ -49,7 +68,7 @@ type c05Sign struct {
 func c05BuildSign(e *c05Env, nAddr, maxT, creations int) *c05Sign {
 	sg := &c05Sign{nAddr: nAddr}
 	sg.t = 1 + vs.Pick("threshold", maxT)
-	sg.active = c05Group(e, nAddr, uint64(sg.t))
+	sg.active = c05Group(e, nAddr, uint64(sg.t), vs.Param("symbolic_active"))
 
 	p := e.k.GetParams(e.ctx)
 	sg.maxAttempt = vs.U64("max_signing_attempt")
@@ -214,7 +233,7 @@ func VerifC05Assign() {
 	vs.AssumeHashScalars()
 	e := c05Setup()
 	nAddr := vs.Param("addrs")
-	st := c05BuildQueuesOpt(e, nAddr, c05Wins(nAddr, -1, 0, vs.Param("window")), c05PointDE, false)
+	st := c05AssignQueues(e, nAddr)
 	sg := c05BuildSign(e, nAddr, vs.Param("max_threshold"), 1)
 	attempt := vs.U64("current_attempt")
 	vs.Assume(attempt < c05AttemptBound)
@@ -267,7 +286,7 @@ func VerifC05EndBlockRetry() {
 	e := c05Setup()
 	nAddr := vs.Param("addrs")
 	nS := vs.Param("signings")
-	st := c05BuildQueuesOpt(e, nAddr, c05Wins(nAddr, -1, 0, vs.Param("window")), c05PointDE, false)
+	st := c05AssignQueues(e, nAddr)
 	sg := c05BuildSign(e, nAddr, vs.Param("max_threshold"), nS)
 	f := c05Inject(e, st, vs.Param("faults"))
 
@@ -352,7 +371,7 @@ func VerifC05RequestSigning() {
 	vs.AssumeHashScalars()
 	e := c05Setup()
 	nAddr := vs.Param("addrs")
-	st := c05BuildQueuesOpt(e, nAddr, c05Wins(nAddr, -1, 0, vs.Param("window")), c05PointDE, false)
+	st := c05AssignQueues(e, nAddr)
 	sg := c05BuildSign(e, nAddr, vs.Param("max_threshold"), 1)
 	f := c05Inject(e, st, vs.Param("faults"))
 	count := vs.U64("signing_count")
